@@ -144,6 +144,10 @@ def handle (op : String) (args : List String) : Option String :=
       let (prev, failAt) ← run (do let p ← list nat; let f ← int; pure (p, f)) args
       let db := Checkpoint.sqlRun ⟨prev, none⟩ (Checkpoint.sqlSaveStmts 999) (if failAt < 0 then none else some failAt.toNat)
       pure (showNats db.committed)
+  | "ckpt.journal" => do
+      let (j, n, k, rb) ← run (do let j ← nat; let n ← nat; let k ← nat; let rb ← bool; pure (j, n, k, rb)) args
+      pure (match Checkpoint.Journal.load j n rb (Checkpoint.Journal.crashAt j n k) with
+        | .prev => "prev" | .new => "new" | .mixture => "mixture")
   | "smp.pso" => do
       let (bs, ns) ← run (do let bs ← nat; let ns ← list nat; pure (bs, ns)) args
       pure (joinSp ((Samplers.Pso.run (Samplers.Pso.sampleBatch bs) Samplers.Pso.init ns).map (fun a => match a with
